@@ -87,9 +87,9 @@ func (t *swTable) caseConstResult(c swCase) constant.Value {
 	n := 0
 	for b := range t.caseRegion(c) {
 		if ret, ok := b.Instrs[len(b.Instrs)-1].(*ssa.Return); ok && len(ret.Results) > 0 {
-			if cc, ok := ret.Results[0].(*ssa.Const); ok && cc.Value != nil {
+			if cc, ok := rvals(ret)[0].(*ssa.Const); ok && cc.Value != nil {
 				// skip error returns of nested failure paths: constant zero value together with non-nil error
-				if len(ret.Results) > 1 && !definitelyNil(ret.Results[len(ret.Results)-1]) {
+				if len(ret.Results) > 1 && !definitelyNil(rvals(ret)[len(ret.Results)-1]) {
 					continue
 				}
 				out = cc.Value
